@@ -121,3 +121,37 @@ func EmptySeriesOK(model string) bool {
 	emptyOK.Store(model, ok)
 	return ok
 }
+
+var emptyCrashReported sync.Map
+
+// CheckEmptyRun: a Run over a period of zero timesteps is a legal call (a hot-start caller whose window is empty makes
+// it): it must return, and it must leave the states it was handed exactly as they are - no timestep ran. states are the
+// final states of a run with the same parameters, so they are consistent with them.
+func CheckEmptyRun(c *core.Ctx, model string, sets []PSet, states [][]float64) {
+	if !EmptySeriesOK(model) {
+		if _, done := emptyCrashReported.LoadOrStore(model, true); !done {
+			c.Violate("empty-run-crashes", model, "a Run over an empty period (inputs and outputs with a time axis of extent 0) does not return: a child process making that call died")
+		}
+		return
+	}
+	desc := NewModel(model).Description()
+	in := make([][]float64, len(desc.Inputs))
+	for i := range in {
+		in[i] = []float64{}
+	}
+	run := &MRun{Model: model, N: len(states), T: 0, Sets: sets, Inputs: [][][]float64{in}, States: clone2(states)}
+	out, err := Execute(run)
+	if err != nil {
+		c.Violate("prepare", model, err.Error())
+		return
+	}
+	c.Count("empty_runs_checked", 1)
+	for i := range states {
+		for j := range states[i] {
+			if j < len(out.States[i]) && !core.BitEq(out.States[i][j], states[i][j]) && !(states[i][j] != states[i][j] && out.States[i][j] != out.States[i][j]) {
+				c.Violate("empty-run-changes-states", model, fmt.Sprintf("a Run over an empty period changed state %d of cell %d from %v to %v (states before %v, after %v)", j, i, states[i][j], out.States[i][j], states[i], out.States[i]))
+				return
+			}
+		}
+	}
+}
